@@ -159,8 +159,12 @@ def reachability_case(case):
                         reachable = set(map(id, root.children))
                     else:
                         d = root.named
-                        op = rnd.choice(["set", "del", "update", "assign"])
-                        if op == "set":
+                        op = rnd.choice(["set", "del", "update", "assign", "clear", "pop"])
+                        if op == "clear":
+                            d.clear()
+                        elif op == "pop" and d:
+                            d.pop(rnd.choice(sorted(d)))
+                        elif op == "set":
                             d[rnd.choice("abc")] = rnd.choice(pool)
                         elif op == "del" and d:
                             del d[rnd.choice(sorted(d))]
